@@ -232,7 +232,7 @@ def sec_features(repo, c):
 ARITH_FILES = {'arith_ordered': 'src/collections/ordered_array_like.rs', 'arith_rope': 'src/collections/rope/mod.rs', 'arith_slots': 'src/collections/rope/slots.rs',
                'arith_unord_array': 'src/collections/unordered_array_like.rs', 'arith_unord_map': 'src/collections/unordered_map_like.rs',
                'arith_rec_map': 'src/collections/unordered_map_like_recursive.rs'}
-ARITH_RE = re.compile(r"\bas\s+(u8|u16|u32|u64|i8|i16|i32|i64|isize|usize)\b|\b(wrapping|saturating|checked|overflowing)_\w+|\b(u8|u16|u32|i8|i16|i32)::(MAX|MIN|try_from|from)\b|try_into\(\)")
+ARITH_RE = re.compile(r"\bas\s+(u8|u16|u32|u64|i8|i16|i32|i64|isize|usize)\b|\b(wrapping|saturating|checked|overflowing)_\w+|\b(u8|u16|u32|i8|i16|i32)::(MAX|MIN|try_from|from)\b|try_into\(\)|\s(>>|<<)=?\s")
 def arith_sites(repo, rel):
     out = []
     for line in read(repo, rel).splitlines():
